@@ -158,6 +158,9 @@ def run(ctx):
                 if rn[0] == 'ok' and bad is None:
                     b3 = spec_ncyc(vv, P, rn[1], origin)
                     ctx.oracle('C11.e ' + (b3 or 'cycle counter'), b3 is None, inputs={'values': list(v), 'origin': origin})
+                elif rn[0] != 'ok' and bad is None and len(set(v)) > 1:
+                    ctx.oracle("C11.e the cycle counter is returned for every non-constant series (start='%s')" % ('origin' if origin else 'peak'), False,
+                               inputs={'values': list(v), 'origin': origin}, detail=rn)
 
     for v in corpus:
         ctx.hist('corpus')
@@ -198,4 +201,39 @@ def run(ctx):
             if np.all(a == np.round(a)):
                 ok = ok and np.array_equal(r0, pc.get_peak_array_indices(a.astype(int)))
             ctx.oracle('same indices for list / int-dtype input', ok, inputs={'values': v})
+    ctx.flush()
+
+
+
+# ---- extras (round-3 lessons): narrow integer dtypes --------------------------------------------------------------------------------------
+
+def extras(ctx):
+    """integer records of any width are series: the indices (all / max / min) and the cycle counter are those of the same numbers held
+    as float64, also when differences or products of neighbouring samples would overflow the record's own dtype"""
+    from eqsig.fns import peaks_and_crossings as pc
+    rng = ctx.rng
+    for it in range(30 if ctx.tier == 'quick' else 400):
+        n = gen.log_int(rng, 3, 60)
+        v = gen.int_record(rng, n) if it % 2 else gen.plateau_record(rng, n)
+        if len(set(v.tolist())) < 2:
+            continue
+        for label, arr, f64 in gen.narrow_int_variants(v):
+            ctx.hist('narrow-int/' + label)
+            ctx.count_case(('narrow', label, arr.tobytes()), True)
+            for nm, call in (('all', lambda x: pc.get_peak_array_indices(x)), ('max', lambda x: pc.get_peak_array_indices(x, ptype='max')),
+                             ('min', lambda x: pc.get_peak_array_indices(x, ptype='min')), ('n_cyc', lambda x: pc.get_n_cyc_array(x)),
+                             ('n_cyc/peak', lambda x: pc.get_n_cyc_array(x, start='peak'))):
+                want, got = call_impl(call, f64), call_impl(call, arr)
+                ok = want[0] == got[0] and (want[0] != 'ok' or (np.shape(want[1]) == np.shape(got[1]) and bool(np.all(np.asarray(want[1]) == np.asarray(got[1])))))
+                ctx.oracle('C11 integer records of any width give the indices / counter of the same numbers as float64 (%s)' % nm, ok,
+                           {'values': arr.tolist(), 'dtype': str(arr.dtype)}, detail={'float64': want[1] if want[0] != 'ok' else np.asarray(want[1]).tolist()[:12],
+                                                                                       'integer': got[1] if got[0] != 'ok' else np.asarray(got[1]).tolist()[:12]})
+
+
+_run_main = run
+
+
+def run(ctx):
+    _run_main(ctx)
+    extras(ctx)
     ctx.flush()
